@@ -510,6 +510,8 @@ class ExprMixin:
                 return Tup([Poly.const(len(base))])
             if name == 'size':
                 return Poly.const(len(base))
+            if name == 'ndim' and all(isinstance(i, (Poly, Const)) for i in base.items):
+                return Poly.const(1)
             if name == 'T':
                 return base
         if isinstance(base, Poly) and base.const_value() is not None:
